@@ -219,6 +219,92 @@ def sqlite_restore(tier):
     return r
 
 
+def snapshot_codec():
+    """{table: {'key': (kind, [columns]), 'data': (kind, [columns])}} as written by the snapshot helpers, and the same as read back by the restore,
+    from the source text: kind 'tuple' (serde_json of a tuple, columns by position), 'single' (serde_json of one value) or 'raw' (the column's bytes themselves)."""
+    src = re.sub(r'//[^\n]*', '', S.source('lib.rs'))
+    writers = {}
+    for m in re.finditer(r'\bfn (snapshot_\w+)\s*\(', src):
+        fn = m.group(1)
+        if fn == 'snapshot_group_state':
+            continue
+        body = re.sub(r'\s+', ' ', S.fn_body(src, fn))
+        ms = re.search(r'"\s*SELECT (.*?) FROM (\w+)', body)
+        if not ms:
+            raise S.SqlError(f'{fn}: no SELECT found')
+        sel_cols, table = [c.strip() for c in ms.group(1).split(',')], ms.group(2)
+        var_col = {}
+        for g in re.finditer(r'let (\w+)\s*:\s*[^=;]+=\s*row\s*\.get\((\d+)\)', body):
+            if int(g.group(2)) >= len(sel_cols):
+                raise S.SqlError(f'{fn}: row.get({g.group(2)}) beyond the select list')
+            var_col[g.group(1)] = sel_cols[int(g.group(2))]
+        enc = {}
+        for g in re.finditer(r'let (row_key|row_data)\s*=\s*serde_json::to_vec\(\s*&(\(.*?\)|\w+)\s*\)\s*\.map_err', body):
+            e = g.group(2).strip()
+            if e.startswith('('):
+                vs = [x.strip().lstrip('&').strip() for x in S.split_top(e[1:-1]) if x.strip()]
+                kind = 'tuple'
+            else:
+                vs, kind = [e], 'single'
+            if any(v not in var_col for v in vs):
+                raise S.SqlError(f'{fn}: {g.group(1)} encodes {vs}, not all read from the row')
+            enc[g.group(1)] = (kind, [var_col[v] for v in vs])
+        mp = re.search(r'insert_stmt\s*\.execute\(\s*(?:rusqlite::)?params!\s*\[([^\]]*)\]', body)
+        if not mp:
+            raise S.SqlError(f'{fn}: snapshot INSERT parameters not found')
+        ps = [x.strip() for x in S.split_top(mp.group(1))]
+        if len(ps) != 6 or ps[2].strip('"') != table:
+            raise S.SqlError(f'{fn}: snapshot INSERT parameters not understood: {ps}')
+        w = {}
+        for blob, v in (('key', ps[3]), ('data', ps[4])):
+            v = v.lstrip('&').strip()
+            if v in enc and v == 'row_' + blob:
+                w[blob] = enc[v]
+            elif v in var_col:
+                w[blob] = ('raw', [var_col[v]])
+            else:
+                raise S.SqlError(f'{fn}: snapshot {blob} parameter {v} not understood')
+        writers[table] = w
+    body = re.sub(r'\s+', ' ', re.sub(r'//[^\n]*', '', S.fn_body(S.source('lib.rs'), 'restore_group_from_snapshot')))
+    sql_pos = [m.start() for m in re.finditer(r'"\s*(?:INSERT|DELETE|SELECT|UPDATE|BEGIN|COMMIT|ROLLBACK)\b', body)]
+    decodes = []
+    for g in re.finditer(r'let\s*\(([^)]*)\)\s*(?::\s*\((?:[^()]|\([^()]*\))*\))?\s*=\s*serde_json::from_slice\(\s*&?(row_key|row_data)\s*\)', body):
+        vs = [x.strip() for x in g.group(1).split(',') if x.strip()]
+        decodes.append((g.start(), 'tuple', [v[4:].strip() if v.startswith('mut ') else v for v in vs], g.group(2)[4:]))
+    for g in re.finditer(r'let\s+(\w+)\s*(?::[^=;]+)?=\s*serde_json::from_slice\(\s*&?(row_key|row_data)\s*\)', body):
+        decodes.append((g.start(), 'single', [g.group(1)], g.group(2)[4:]))
+    readers = {}
+    for m in re.finditer(r'"\s*(INSERT(?: OR REPLACE)? INTO (\w+)\s*\(([^)]*)\)\s*VALUES\s*\(([^)]*)\)[^"]*)"\s*,\s*(?:rusqlite::)?params!\s*\[([^\]]*)\]', body):
+        table = m.group(2)
+        if table == 'group_state_snapshots':
+            continue
+        cols = [c.strip() for c in m.group(3).split(',')]
+        vals = [v.strip() for v in m.group(4).split(',')]
+        ps = [x.strip().lstrip('&').strip() for x in S.split_top(m.group(5)) if x.strip()]
+        if len(cols) != len(vals) or sum(1 for v in vals if v.startswith('?')) != len(ps):
+            raise S.SqlError(f'restore INSERT into {table}: columns / values / parameters do not line up')
+        prev = max([q for q in sql_pos if q < m.start()], default=0)
+        local = [d for d in decodes if prev < d[0] < m.start()]
+        src_of = {}
+        for _, kind, vs, blob in local:
+            for k, v in enumerate(vs):
+                src_of[v] = (blob, kind, k, len(vs))
+        it = iter(ps)
+        rd = {}
+        for c, v in zip(cols, vals):
+            if not v.startswith('?'):
+                continue
+            pv = next(it)
+            if pv in ('row_key', 'row_data'):
+                rd[c] = (pv[4:], 'raw', 0, 1)
+            elif pv in src_of:
+                rd[c] = src_of[pv]
+            else:
+                rd[c] = None
+        readers[table] = rd
+    return writers, readers
+
+
 def sqlite_columns(tier):
     """every column of each snapshotted table travels through snapshot and restore"""
     r = Result('O2', 'sqlsym', 'SQLite snapshot/restore cover every column of every snapshotted table (catalogue cross-check, incl. columns added by later migrations); '
@@ -315,6 +401,23 @@ def sqlite_columns(tier):
         if foreign:
             r.fail(f'O2/{tbl}/restore-value-not-from-snapshot', f'the restore INSERT into {tbl} binds {foreign}, which is not decoded from the snapshot row: the restored row is keyed / filled with a value '
                    'other than the one that was snapshotted (e.g. the raw group id instead of the MlsCodec-encoded key), so the restored state is not the snapshotted one')
+    # the snapshot blob is written and read back position by position: the column the restore binds a decoded value to is the column the snapshot helper
+    # put at that position of the same blob (two same-typed neighbours swapped on one side only would exchange their values on every rollback)
+    writers, readers = snapshot_codec()
+    for t in sorted(set(writers) | set(readers)):
+        n += 1
+        if t not in writers or t not in readers:
+            continue                      # reported as one-sided above
+        for c, srcv in sorted(readers[t].items()):
+            if srcv is None:
+                continue                  # reported as restore-value-not-from-snapshot above
+            blob, kind, k, arity = srcv
+            wkind, wcols = writers[t][blob]
+            if kind != wkind or arity != len(wcols):
+                r.fail(f'O2/{t}/snapshot-codec-shape', f'column {c} of {t} is restored from the snapshot {blob} read as {kind} of {arity}, but the snapshot helper writes the {blob} as {wkind} of {len(wcols)} ({wcols})')
+            elif wcols[k] != c:
+                r.fail(f'O2/{t}/snapshot-codec-position', f'column {c} of {t} is restored from position {k} of the snapshot {blob}, where the snapshot helper stored column {wcols[k]}: '
+                       f'a rollback writes the value of {wcols[k]} into {c}')
     # the OTHER snapshots of the group are deleted by the cascade and put back: they must come back unchanged, age included
     others_sel = [x for x in rest_prog if x.kind == 'SELECT' and x.table == 'group_state_snapshots' and any(isinstance(c, tuple) and c[0] == 'snapshot_name' and c[1] in ('!=', '<>') for c in (x.where or []))]
     others_ins = [x for x in rest_prog if x.kind == 'INSERT' and x.table == 'group_state_snapshots']
